@@ -12,6 +12,8 @@ claimed={
               note="Outside: >2 simultaneously active fields per instance (other fields are checked to stay unset), hugepage/unified entries in updates (conflicts on them are decided under C01/C02), a plugin setting the same field of the same target twice (A-WF), device-cgroup rules of the runtime request (Copy() does not carry them; see DESIGN F9).", ref="5 C05"),
  "C14": dict(text="Round trips NRI->OCI->NRI and OCI->NRI->OCI of resources (13 optional scalars in all/none/exactly-one/all-but-one presence patterns with full-width symbolic values, cpuset strings, <=2 hugepage limits, <=2 unified keys, pids, <=2 device-cgroup rules), mounts (<=2, <=2 options), devices (optional mode/uid/gid), hooks (6 stages, <=2 args/env, optional timeout), env (any key without '='); Copy(): field equality and heap disjointness computed on the engine's heap (reachable pointer/slice/map objects of original and copy do not intersect); all optional constructors for nil pointer / value / pointer-to-value with full-width symbolic values; event-mask print/parse for all 8191 valid non-empty masks (the printer forks per bit: exhaustive path enumeration, each printed string is concrete and goes through the real parser).",
               note="Outside: >2 elements per list; LinuxResources.Copy() does not carry Devices (not in the property's list); FromOCILinuxResources ignores BlockIO/RDT (no OCI counterpart in this API).", ref="5 C14"),
+ "C13": dict(text="Pointwise pre/post conditions on a symbolic probe key, written from the statement (set wins over removal, otherwise removal, otherwise unchanged), decided on the real Generator.AdjustAnnotations/AdjustEnv/AdjustDevices/AdjustMounts/Adjust with the runtime-tools generator methods executed from their own SSA, for every map iteration order and both list orders: <=2 existing items and <=2 adjustment entries (set / removal / both) per family with symbolic keys and values; mounts over a 6-element path lattice incl. the parent-before-child ordering; existing env entry without '='; CPU shares/quota/period/realtime/cpuset, memory limit, hugepage, unified, pids, cgroups path, OOM score, args with full-width symbolic values and 'everything not named unchanged'; hooks of all six stages, rlimits appended in order, CDI names handed to the injector.",
+              note="Outside: >2 items per family, unbounded mount paths (filepath.Clean on symbolic strings), a requested memory limit of 0 (treated as unset by design) and the limit->swap coupling, block-I/O / RDT class resolvers, ensurePropagation (/proc mountinfo). Determinism = the postcondition is a function of the inputs on every explored order.", ref="5 C13"),
 }
 NA_DEFAULT="check not built yet in this session (engine exists; harness for this property pending)"
 na={}
